@@ -54,8 +54,37 @@ fn pe_steps(input: &Tree) -> Result<Tree, String> {
     ])))
 }
 
+/// inst_pe_steps: [instance, [s1, s2, ..], s_last] -> [ok [instance after partial_evaluate(s1), (s2), ..,
+///   ids returned by the LAST step] | err, evaluate(that instance, s_last), evaluate(original, union)]
+fn inst_pe_steps(input: &Tree) -> Result<Tree, String> {
+    let xs = input.as_list()?;
+    let ins = d_instance(&xs[0])?;
+    let steps: Vec<ommx::v1::State> = xs[1].as_list()?.iter().map(d_state).collect::<Result<_, _>>()?;
+    let last = d_state(&xs[2])?;
+    let mut all = last.clone();
+    for s in &steps {
+        all = merge_states(&all, s);
+    }
+    let ev = |i: &ommx::v1::Instance, s: &ommx::v1::State| match i.evaluate(s) {
+        Ok((sol, _)) => ok(e_solution(&sol)),
+        Err(e) => err("evaluate", &format!("{e:#}")),
+    };
+    let mut pe = ins.clone();
+    let mut ids = std::collections::BTreeSet::new();
+    for s in &steps {
+        match pe.partial_evaluate(s) {
+            Ok(i) => ids = i,
+            Err(e) => {
+                return Ok(L(vec![err("partial_evaluate", &format!("{e:#}")), L(vec![]), ev(&ins, &all)]));
+            }
+        }
+    }
+    Ok(L(vec![ok(L(vec![e_instance(&pe), e_ids(ids.iter())])), ev(&pe, &last), ev(&ins, &all)]))
+}
+
 pub fn dispatch(op: &str, input: &Tree) -> Option<Result<Tree, String>> {
     match op {
+        "inst_pe_steps" => Some(inst_pe_steps(input)),
         "partial_evaluate" => Some(partial_evaluate(input)),
         "pe_steps" => Some(pe_steps(input)),
         _ => None,
